@@ -728,7 +728,7 @@ def check_model():
 
 def alias_sequences():
     """a file in which several header words share stored arrays (SourceX = CDP_X, SourceY = CDP_Y in every trace, as in many real
-    SEG-Y files): every ordered sequence of three whole-field reads, followed by two regenerated headers, on ONE reader and on
+    SEG-Y files): ordered sequences of five whole-field reads, followed by two regenerated headers, on ONE reader and on
     ONE emulator, equals what fresh readers answer (oracle only; the cache model does not describe this file)"""
     import seismic_zfp as _sz
     g = random.Random(a.seed * 13 + 5)
@@ -747,7 +747,7 @@ def alias_sequences():
     with SgzReader(p) as r:
         n_arr, hd_ref = r.n_header_arrays, {t: {int(k): int(v) for k, v in r.gen_trace_header(t, load_all_headers=True).items()} for t in (0, 7, 29)}
     R.notes.append(f'alias file: {n_arr} stored arrays behind {len(fields)} varying header words')
-    seqs = list(itertools.permutations(fields, 3))
+    seqs = list(itertools.permutations(fields, 5))        # (longer than the number of stored arrays: every count-based shortcut is crossed)
     g.shuffle(seqs)
     for seq in seqs[:(60 if quick else 210)]:
         inp = {'file': 'alias', 'history': [f'get_tracefield_values({f_})' for f_ in seq] + ['gen_trace_header(7, load_all_headers=True)', 'gen_trace_header(29)']}
